@@ -25,14 +25,15 @@ namespace
 
     const char* cls_of(const std::string& s)
     {
-        bool sp = false, dot = false;
+        bool sp = false, dot = false, punct = false;
         for (unsigned char c : s)
         {
             if (c >= 0x80) return "utf8";
             if (c == ' ') sp = true;
             if (c == '.') dot = true;
+            if (std::strchr("\\'\":;*?<>|&$!#()[]{}`~^\t", c) && c != 0) punct = true;
         }
-        return sp ? "space" : dot ? "dot" : "ascii";
+        return punct ? "punct" : sp ? "space" : dot ? "dot" : "ascii";
     }
 
     // [abs, trail, dbl, comps]: starts with '/', ends with '/', number of empty segments, the segments
